@@ -11,8 +11,8 @@ pub type SassResult<T> = Result<T, Box<SassError>>;
 #[derive(Clone, Copy, PartialEq, Eq, Structural)]
 pub enum BinaryOp { SingleEq, Equal, NotEqual, GreaterThan, GreaterThanEqual, LessThan, LessThanEqual, Plus, Minus, Mul, Div, Rem, And, Or }
 
-pub struct SassNumber { }
-pub struct SassCalculation { }
+pub struct SassNumber { pub tag: u64 }
+pub struct SassCalculation { pub tag: u64 }
 pub enum CalculationArg {
     Number(SassNumber),
     Calculation(SassCalculation),
